@@ -207,6 +207,8 @@ class C01(Check):
     pid = "C01"
     title = "Derivatives equal stoichiometry x rates over fully resolved values"
     rules = {
+        "A10": "stoichiometry queries (get_stoichiometries, get_stoichiometries_of_variable) return a private copy of the static table in which every "
+               "computed coefficient has been evaluated on the argument mapping of the queried (variables, time)",
         "A9": "(shared with C03) every entry point computes on a cache that reflects the model's current content: edits reset the memoised cache and nothing but the cache builder writes into it (I1, I5 of C03)",
         "A8": "(shared with C13) the static / state-dependent classification that decides which quantities the assembled right-hand side recomputes: N2 of C13 on Model._create_cache",
         "A1": "sibling agreement: Model.__call__ and Model._get_right_hand_side both accumulate exactly "
@@ -226,7 +228,7 @@ class C01(Check):
         "A5": "entry-point agreement: flux queries request exactly reactions + surrogate fluxes; every query entry point reaches _get_args "
               "(or consumes its output); component classes evaluate fn(*(values[a] for a in args)) and store under their own name",
     }
-    floors = {"A9": 20, "A8": 3, "A1": 4, "A2": 5, "A3": 4, "A4": 2, "A5": 10, "A6": 2, "A7": 2}
+    floors = {"A10": 2, "A9": 20, "A8": 3, "A1": 4, "A2": 5, "A3": 4, "A4": 2, "A5": 10, "A6": 2, "A7": 2}
     decided = [
         "both right-hand-side assemblers compute sum over static and state-dependent coefficients times fluxes, on one consistent value mapping",
         "vector form: declaration order, one entry per variable, 0 for untouched variables; integrator input/output use the same order",
@@ -247,6 +249,47 @@ class C01(Check):
         self.a7(mod)
         self.borrow("C13", ("N2", "N3"), "A8")
         self.borrow("C03", ("I1", "I5"), "A9")
+        self.a10(mod)
+
+    def a10(self, mod) -> None:
+        """Stoichiometry queries: the static table is copied and every computed coefficient is evaluated on the argument mapping of the
+        queried state and written over its entry."""
+        from ..interp import Sym, SymInterp
+
+        class I1(SymInterp):
+            loop_unroll = 1
+
+        for name in ("get_stoichiometries", "get_stoichiometries_of_variable"):
+            fn = mod.func(f"Model.{name}")
+            q = f"Model.{name}"
+            paths = [st for st, _ in I1().run_function(fn, Sym()).returns]
+            good = bad = None
+            for st in paths:
+                created = {e[1]: e[2] for e in st.events if e[0] == "new"}
+                for e in st.events:
+                    if e[0] != "store":
+                        continue
+                    tgt, val = e[1], e[2]
+                    base = tgt.split("[")[0]
+                    if base in created:
+                        tgt = created[base] + tgt[len(base):]
+                    if "stoich_by_cpds" not in tgt:
+                        continue
+                    copied = tgt.startswith(("copy.deepcopy(", "deepcopy(", "dict(", "{")) or ".copy()" in tgt
+                    from_dyn = "dyn_stoich_by_cpds" in val and "dyn_stoich_by_cpds" in e[1]
+                    at_state = "self.get_args(variables=variables, time=time)" in val and (".fn(*(" in val or ".calculate(" in val)
+                    if copied and from_dyn and at_state:
+                        good = e
+                    else:
+                        bad = e
+            anchor = next((x for x in ast.walk(fn) if isinstance(x, ast.For)), fn)
+            if good is not None and bad is None:
+                self.holds("A10", MOD, q, "computed-coefficients-evaluated", anchor, "each computed coefficient is evaluated at the queried state and written over its entry of a copy of the static table")
+            elif bad is not None:
+                self.violated("A10", MOD, q, "computed-coefficients-evaluated", anchor, f"`{bad[1][:60]} = {bad[2][:60]}` is not a computed coefficient evaluated at the queried (variables, time) written into a private copy of the table")
+            else:
+                self.violated("A10", MOD, q, "computed-coefficients-evaluated", anchor, "no path writes the computed coefficients into the returned table: a state-dependent coefficient is reported as absent (0) "
+                              "or with its cached value", witness="a reaction with stoichiometry {'x': Derived(fn=twice, args=['x'])}: get_stoichiometries(variables={'x': 3}) lacks the entry")
 
     # ------------------------------------------------------------------
     def a1(self, mod) -> None:
